@@ -1,4 +1,5 @@
 import PqModel.ConvertChunks
+import PqModel.ConvertAddedTree
 
 namespace PqModel.Convert
 open PqModel.Dremel
@@ -257,67 +258,76 @@ theorem chunkF_length (n : Nat) (all : PFields) : ∀ (tfs : PFields) (lv : Lv) 
     rw [chunkN_length n tn, chunkF_length n all tfs]
 end
 
+theorem isDirect_of_id {lv : Lv} (h : IdLv lv) :
+    (isDirect lv.R (lv.sr + 1) && isDirect lv.D (lv.sd + 1)) = true := by
+  simp only [Bool.and_eq_true, isDirect, List.all_eq_true, List.mem_range, beq_iff_eq]
+  exact ⟨fun i hi => h.R i (by omega), fun i hi => h.D i (by omega)⟩
+
+/-- identity level tables: the column is `direct`, its chunk is the source chunk -/
+theorem chunkLeaf_id {lv : Lv} (h : IdLv lv) (c : List Triple) : chunkLeaf lv c = c := by
+  simp [chunkLeaf, isDirect_of_id h]
+
 mutual
 theorem lin_chunkN (n : Nat) : ∀ (t : PNode) (trp : Rp) (lv : Lv) (s : PNode) (X Y : Cols)
     (p1 p2 p3 a1 a2 a3 : Option (List Triple)),
-    permN s t = true → X.length = leavesP s → Y.length = leavesP s →
+    IdLv lv → permN s t = true → X.length = leavesP s → Y.length = leavesP s →
     chunkN n t trp lv (.on s (zipApp X Y) p3) a3 =
       zipApp (chunkN n t trp lv (.on s X p1) a1) (chunkN n t trp lv (.on s Y p2) a2)
-  | .leaf, trp, lv, s, X, Y, p1, p2, p3, a1, a2, a3, hs, hx, hy => by
+  | .leaf, trp, lv, s, X, Y, p1, p2, p3, a1, a2, a3, hid, hs, hx, hy => by
     cases s with
     | group sfs => simp [permN] at hs
     | leaf =>
       simp only [leavesP, eraseN, leavesN] at hx hy
       match X, Y, hx, hy with
-      | [x], [y], _, _ => simp [chunkN, zipApp]
-  | .group tfs, trp, lv, s, X, Y, p1, p2, p3, a1, a2, a3, hs, hx, hy => by
+      | [x], [y], _, _ => simp [chunkN, zipApp, chunkLeaf_id hid]
+  | .group tfs, trp, lv, s, X, Y, p1, p2, p3, a1, a2, a3, hid, hs, hx, hy => by
     cases s with
     | leaf => simp [permN] at hs
     | group sfs =>
       simp only [permN] at hs
       simp only [leavesP, eraseN, leavesN] at hx hy
       simp only [chunkN]
-      exact lin_chunkF n tfs tfs lv sfs X Y p1 p2 p3 hs hx hy
+      exact lin_chunkF n tfs tfs lv sfs X Y p1 p2 p3 hid hs hx hy
 theorem lin_chunkF (n : Nat) (all : PFields) : ∀ (tfs : PFields) (lv : Lv) (sfs : PFields) (X Y : Cols)
     (p1 p2 p3 : Option (List Triple)),
-    permF sfs tfs = true → X.length = leavesF (eraseF sfs) → Y.length = leavesF (eraseF sfs) →
+    IdLv lv → permF sfs tfs = true → X.length = leavesF (eraseF sfs) → Y.length = leavesF (eraseF sfs) →
     chunkF n all tfs lv (.on (.group sfs) (zipApp X Y) p3) =
       zipApp (chunkF n all tfs lv (.on (.group sfs) X p1)) (chunkF n all tfs lv (.on (.group sfs) Y p2))
-  | .nil, _, _, _, _, _, _, _, _, _, _ => by simp [chunkF, zipApp]
-  | .cons nm trp tn tfs, lv, sfs, X, Y, p1, p2, p3, hs, hx, hy => by
+  | .nil, _, _, _, _, _, _, _, _, _, _, _ => by simp [chunkF, zipApp]
+  | .cons nm trp tn tfs, lv, sfs, X, Y, p1, p2, p3, hid, hs, hx, hy => by
     obtain ⟨sn, hg, hsn, hrest⟩ := permF_cons hs
     simp only [chunkF, stepS_on nm trp lv sfs _ _ hg]
     rw [blkOf_zip nm sfs X Y (by rw [hx, hy])]
-    rw [lin_chunkN n tn trp (lv.step trp trp) sn (blkOf nm sfs X) (blkOf nm sfs Y) _ _ _ _ _ _ hsn
+    rw [lin_chunkN n tn trp (lv.step trp trp) sn (blkOf nm sfs X) (blkOf nm sfs Y) _ _ _ _ _ _ (hid.step trp) hsn
       (blkOf_length nm trp sn sfs X hg hx) (blkOf_length nm trp sn sfs Y hg hy)]
-    rw [lin_chunkF n all tfs lv sfs X Y p1 p2 p3 hrest hx hy]
+    rw [lin_chunkF n all tfs lv sfs X Y p1 p2 p3 hid hrest hx hy]
     rw [zipApp_append _ _ (by rw [chunkN_length, chunkN_length])]
 end
 
 mutual
 theorem absent_chunkN (n : Nat) : ∀ (t : PNode) (trp : Rp) (lv : Lv) (s : PNode) (r d : Nat)
-    (pc adj : Option (List Triple)), permN s t = true →
+    (pc adj : Option (List Triple)), IdLv lv → permN s t = true →
     chunkN n t trp lv (.on s (absentN (eraseN s) r d) pc) adj = absentN (eraseN t) r d
-  | .leaf, trp, lv, s, r, d, pc, adj, hs => by
+  | .leaf, trp, lv, s, r, d, pc, adj, hid, hs => by
     cases s with
     | group sfs => simp [permN] at hs
-    | leaf => simp [chunkN, eraseN, absentN]
-  | .group tfs, trp, lv, s, r, d, pc, adj, hs => by
+    | leaf => simp [chunkN, eraseN, absentN, chunkLeaf_id hid]
+  | .group tfs, trp, lv, s, r, d, pc, adj, hid, hs => by
     cases s with
     | leaf => simp [permN] at hs
     | group sfs =>
       simp only [permN] at hs
       simp only [chunkN, eraseN, absentN]
-      exact absent_chunkF n tfs tfs lv sfs r d pc hs
+      exact absent_chunkF n tfs tfs lv sfs r d pc hid hs
 theorem absent_chunkF (n : Nat) (all : PFields) : ∀ (tfs : PFields) (lv : Lv) (sfs : PFields) (r d : Nat)
-    (pc : Option (List Triple)), permF sfs tfs = true →
+    (pc : Option (List Triple)), IdLv lv → permF sfs tfs = true →
     chunkF n all tfs lv (.on (.group sfs) (absentF (eraseF sfs) r d) pc) = absentF (eraseF tfs) r d
-  | .nil, _, _, _, _, _, _ => by simp [chunkF, eraseF, absentF]
-  | .cons nm trp tn tfs, lv, sfs, r, d, pc, hs => by
+  | .nil, _, _, _, _, _, _, _ => by simp [chunkF, eraseF, absentF]
+  | .cons nm trp tn tfs, lv, sfs, r, d, pc, hid, hs => by
     obtain ⟨sn, hg, hsn, hrest⟩ := permF_cons hs
     simp only [chunkF, stepS_on nm trp lv sfs _ pc hg, eraseF, absentF, absent_wrap]
-    rw [fld_absent nm trp sn r d sfs hg, absent_chunkN n tn trp _ sn r d _ _ hsn,
-      absent_chunkF n all tfs lv sfs r d pc hrest]
+    rw [fld_absent nm trp sn r d sfs hg, absent_chunkN n tn trp _ sn r d _ _ (hid.step trp) hsn,
+      absent_chunkF n all tfs lv sfs r d pc hid hrest]
 end
 
 theorem sameKind_of_perm {s t : PNode} (h : permN s t = true) : sameKind s t = true := by
@@ -327,19 +337,19 @@ mutual
 /-- one row: the chunks' streams of the converted group are the shredded projection -/
 theorem main_chunkN (n : Nat) : ∀ (t : PNode) (trp : Rp) (lv : Lv) (s : PNode) (v : Val) (r k d : Nat)
     (pc adj : Option (List Triple)),
-    permN s t = true → wfN (eraseN s) = true → confN (eraseN s) v = true → r ≤ k →
+    IdLv lv → permN s t = true → wfN (eraseN s) = true → confN (eraseN s) v = true → r ≤ k →
     chunkN n t trp lv (.on s (shredN (eraseN s) r k d v) pc) adj = shredN (eraseN t) r k d (projN s t v)
-  | .leaf, trp, lv, s, v, r, k, d, pc, adj, hs, hw, hc, hr => by
+  | .leaf, trp, lv, s, v, r, k, d, pc, adj, hid, hs, hw, hc, hr => by
     cases s with
     | group sfs => simp [permN] at hs
     | leaf =>
       cases v with
-      | prim x => simp [chunkN, eraseN, shredN, projN]
+      | prim x => simp [chunkN, eraseN, shredN, projN, chunkLeaf_id hid]
       | struct vs => simp [eraseN, confN] at hc
       | none => simp [eraseN, confN] at hc
       | some w => simp [eraseN, confN] at hc
       | list ws => simp [eraseN, confN] at hc
-  | .group tfs, trp, lv, s, v, r, k, d, pc, adj, hs, hw, hc, hr => by
+  | .group tfs, trp, lv, s, v, r, k, d, pc, adj, hid, hs, hw, hc, hr => by
     cases s with
     | leaf => simp [permN] at hs
     | group sfs =>
@@ -349,40 +359,40 @@ theorem main_chunkN (n : Nat) : ∀ (t : PNode) (trp : Rp) (lv : Lv) (s : PNode)
         simp only [eraseN, confN] at hc
         simp only [eraseN, wfN, Bool.and_eq_true] at hw
         simp only [chunkN, eraseN, shredN, projN]
-        exact main_chunkF n tfs tfs lv sfs vs r k d pc hs hw.1 hc hr
+        exact main_chunkF n tfs tfs lv sfs vs r k d pc hid hs hw.1 hc hr
       | prim x => simp [eraseN, confN] at hc
       | none => simp [eraseN, confN] at hc
       | some w => simp [eraseN, confN] at hc
       | list ws => simp [eraseN, confN] at hc
 theorem main_chunkF (n : Nat) (all : PFields) : ∀ (tfs : PFields) (lv : Lv) (sfs : PFields) (vs : List Val)
     (r k d : Nat) (pc : Option (List Triple)),
-    permF sfs tfs = true → wfF (eraseF sfs) = true → confF (eraseF sfs) vs = true → r ≤ k →
+    IdLv lv → permF sfs tfs = true → wfF (eraseF sfs) = true → confF (eraseF sfs) vs = true → r ≤ k →
     chunkF n all tfs lv (.on (.group sfs) (shredF (eraseF sfs) r k d vs) pc) =
       shredF (eraseF tfs) r k d (projF sfs vs tfs)
-  | .nil, _, _, _, _, _, _, _, _, _, _, _ => by simp [chunkF, eraseF, shredF, projF]
-  | .cons nm trp tn tfs, lv, sfs, vs, r, k, d, pc, hs, hw, hc, hr => by
+  | .nil, _, _, _, _, _, _, _, _, _, _, _, _ => by simp [chunkF, eraseF, shredF, projF]
+  | .cons nm trp tn tfs, lv, sfs, vs, r, k, d, pc, hid, hs, hw, hc, hr => by
     obtain ⟨sn, hg, hsn, hrest⟩ := permF_cons hs
     obtain ⟨v, hfv, hblk, hcv, hwn⟩ := fld_shred nm trp sn r k d hr sfs vs hw hc hg
     have hsk : sameKind sn tn = true := sameKind_of_perm hsn
     simp only [chunkF, stepS_on nm trp lv sfs _ pc hg, hblk, eraseF, projF, hfv, hsk, if_true, shredF]
-    rw [main_chunkF n all tfs lv sfs vs r k d pc hrest hw hc hr]
+    rw [main_chunkF n all tfs lv sfs vs r k d pc hid hrest hw hc hr]
     congr 1
     generalize Option.map (fun x => x.snd) (closestLeaf sfs (shredF (eraseF sfs) r k d vs) none) = pc'
     generalize adjOf nm (trp == Rp.rpt) lv (Src.on (PNode.group sfs) (shredF (eraseF sfs) r k d vs) pc) all none = adj
     cases trp with
     | req =>
       simp only [wrap] at hcv ⊢
-      exact main_chunkN n tn .req _ sn v r k d pc' adj hsn hwn hcv hr
+      exact main_chunkN n tn .req _ sn v r k d pc' adj (hid.step .req) hsn hwn hcv hr
     | opt =>
       simp only [wrap] at hcv ⊢
       cases v with
       | some w =>
         simp only [confN] at hcv
         simp only [shredN]
-        exact main_chunkN n tn .opt _ sn w r k (d + 1) pc' adj hsn hwn hcv hr
+        exact main_chunkN n tn .opt _ sn w r k (d + 1) pc' adj (hid.step .opt) hsn hwn hcv hr
       | none =>
         simp only [shredN]
-        exact absent_chunkN n tn .opt _ sn r d pc' adj hsn
+        exact absent_chunkN n tn .opt _ sn r d pc' adj (hid.step .opt) hsn
       | prim x => simp [confN] at hcv
       | struct vs' => simp [confN] at hcv
       | list ws => simp [confN] at hcv
@@ -394,7 +404,7 @@ theorem main_chunkF (n : Nat) (all : PFields) : ∀ (tfs : PFields) (lv : Lv) (s
         cases ws with
         | nil =>
           simp only [shredN, List.map_nil]
-          exact absent_chunkN n tn .rpt _ sn r d pc' adj hsn
+          exact absent_chunkN n tn .rpt _ sn r d pc' adj (hid.step .rpt) hsn
         | cons w0 ws =>
           simp only [List.all_cons, Bool.and_eq_true] at hcv
           simp only [shredN, List.map_cons, List.foldr_map]
@@ -405,13 +415,13 @@ theorem main_chunkF (n : Nat) (all : PFields) : ∀ (tfs : PFields) (lv : Lv) (s
               ne_of_good (shredN_spec (eraseN sn) r' (k + 1) (d + 1) w hwn hr').1⟩
           rw [conv_fold (fun X => chunkN n tn .rpt (lv.step .rpt .rpt) (.on sn X pc') adj) (leavesN (eraseN sn)) (leavesN (eraseN tn))
             (fun w => shredN (eraseN sn) (k + 1) (k + 1) (d + 1) w)
-            (fun X Y hx hy _ _ => lin_chunkN n tn .rpt _ sn X Y pc' pc' pc' adj adj adj hsn hx hy)
+            (fun X Y hx hy _ _ => lin_chunkN n tn .rpt _ sn X Y pc' pc' pc' adj adj adj (hid.step .rpt) hsn hx hy)
             (fun X => chunkN_length n tn _ _ _ _) ws (fun w _ => hgood (k + 1) w (Nat.le_refl _))
             _ (hgood r w0 (by omega)).1 (hgood r w0 (by omega)).2]
-          have h0 := main_chunkN n tn .rpt (lv.step .rpt .rpt) sn w0 r (k + 1) (d + 1) pc' adj hsn hwn hcv.1 (by omega)
+          have h0 := main_chunkN n tn .rpt (lv.step .rpt .rpt) sn w0 r (k + 1) (d + 1) pc' adj (hid.step .rpt) hsn hwn hcv.1 (by omega)
           have hrest' : ∀ w ∈ ws, chunkN n tn .rpt (lv.step .rpt .rpt) (.on sn (shredN (eraseN sn) (k + 1) (k + 1) (d + 1) w) pc') adj =
               shredN (eraseN tn) (k + 1) (k + 1) (d + 1) (projN sn tn w) := fun w hw' =>
-            main_chunkN n tn .rpt (lv.step .rpt .rpt) sn w (k + 1) (k + 1) (d + 1) pc' adj hsn hwn
+            main_chunkN n tn .rpt (lv.step .rpt .rpt) sn w (k + 1) (k + 1) (d + 1) pc' adj (hid.step .rpt) hsn hwn
               ((List.all_eq_true.mp hcv.2) w hw') (Nat.le_refl _)
           show zipApp (chunkN n tn .rpt (lv.step .rpt .rpt) (.on sn (shredN (eraseN sn) r (k + 1) (d + 1) w0) pc') adj) _ = _
           rw [foldr_zip_congr ws hrest', h0]
@@ -433,11 +443,11 @@ theorem chunkView_rows (src tgt : PNode) (n : Nat) (v0 : Val) (vs : List Val)
   simp only [chunkView, joinRows, joinSegs, List.map_cons, List.foldr_cons, List.foldr_map]
   rw [conv_fold (fun X => chunkN n tgt .req lv0 (.on src X none) none) (leavesP src) (leavesP tgt)
     (fun w => shred src w)
-    (fun X Y hx hy _ _ => lin_chunkN n tgt .req lv0 src X Y none none none none none none hp hx hy)
+    (fun X Y hx hy _ _ => lin_chunkN n tgt .req lv0 src X Y none none none none none none idLv0 hp hx hy)
     (fun X => chunkN_length n tgt _ _ _ _) vs (fun w _ => hgood w) _ (hgood v0).1 (hgood v0).2]
-  have h0 := main_chunkN n tgt .req lv0 src v0 0 0 0 none none hp hwf (hconf v0 (by simp)) (Nat.le_refl _)
+  have h0 := main_chunkN n tgt .req lv0 src v0 0 0 0 none none idLv0 hp hwf (hconf v0 (by simp)) (Nat.le_refl _)
   have hrest : ∀ w ∈ vs, chunkN n tgt .req lv0 (.on src (shred src w) none) none = shred tgt (projN src tgt w) :=
-    fun w hw => main_chunkN n tgt .req lv0 src w 0 0 0 none none hp hwf (hconf w (by simp [hw])) (Nat.le_refl _)
+    fun w hw => main_chunkN n tgt .req lv0 src w 0 0 0 none none idLv0 hp hwf (hconf w (by simp [hw])) (Nat.le_refl _)
   show zipApp (chunkN n tgt .req lv0 (.on src (shredN (eraseN src) 0 0 0 v0) none) none) _ = _
   rw [foldr_zip_congr vs hrest, h0]
   rfl
